@@ -1,6 +1,9 @@
 """C16 - SESAME reliability and clarity verdicts match the 2004 guideline.
 
-E2.  A root is (grid, f0, second peak, search range, order of the two limits); below every root the
+E2.  A root is (grid, f0, second peak, search range, order of the two limits[, tie]); roots come from the product
+of the alphabets below plus two explicit families: END roots (the curve ends 1, 2 or 4 samples beside the peak;
+search-range limits outside the sampled band or exactly on its end samples) and TIE roots (samples other than the
+peak carry exactly its amplitude; flat-topped peaks).  Below every root the
 configuration space (peak height, left / right flank shape, standard-deviation
 curve, window length, window count, sigma_f) is enumerated by deviation count
 (or as a full product), every case is executed on the real
@@ -22,6 +25,14 @@ Violation keys
   C16:<fn>:malformed-return, C16:harness:vacuous-enumeration
   C16:<fn>:reversed-range:<any of the above>  the same oracles when the search range was given as (high, low);
                                              the guideline's verdicts do not depend on the order of the limits
+  C16:<fn>:tied-sample:<...>                 the same oracles on a curve where a sample that is NOT the peak (the first /
+                                             last sample of the range, or a sample on the monotone stretch next to it)
+                                             carries exactly the amplitude of the peak
+  C16:<fn>:flat-top:<...>                    ... on a peak whose top is a run of 3 / 4 exactly equal samples (every
+                                             sample of the run is an admissible f0; nothing outside the run is)
+  C16:<fn>:limit-beyond-band:<...>           ... with a search-range limit strictly below the first / above the last
+                                             frequency of the curve (selects what a missing limit selects), on grids
+                                             whose peak is 1, 2 or 4 samples from that end of the curve
 """
 import contextlib
 import io
@@ -48,7 +59,19 @@ RANGES = ["none", "wide", "narrow", "lo_only", "hi_only", "tie",
           "excl_open", "excl_closed", "at_peak", "adj_lo", "adj_hi"]
 # the two limits in the order (low, high) or (high, low); only ranges with two numbers can be turned round
 ORDERS = ["asc", "desc"]
-TWO_SIDED = ("wide", "narrow", "tie", "excl_closed", "adj_lo", "adj_hi")
+TWO_SIDED = ("wide", "narrow", "tie", "excl_closed", "adj_lo", "adj_hi",
+             "beyond_hi", "beyond_lo", "beyond_both", "at_ends")
+# ranges with a limit outside the sampled band (0.5 x first / 1.5 x last frequency) or exactly on its end samples;
+# enumerated on the END_GRIDS (the peak 1, 2 or 4 samples from the last / first sample of the curve)
+BEYOND = ("beyond_hi", "beyond_lo", "beyond_both")
+END_RANGES = list(BEYOND) + ["at_ends", "none", "lo_only", "hi_only"]
+END_GRIDS = ["tail1", "tail2", "tail4", "head1", "head2", "head4"]
+# samples that carry EXACTLY the amplitude of the peak (placed relative to the samples the range selects):
+#   first / last   the first / last sample of the range (an end sample is never a peak)
+#   lead / trail   the curve comes down from 1.25 A0 at the first (goes up to 1.25 A0 at the last) sample of the range
+#                  and passes through exactly A0 on the sample next to it
+#   flat3 / flat4  the top of the peak is a run of 3 (p-1..p+1) / 4 (p-1..p+2) equal samples
+TIES = ["first", "lead", "last", "trail", "flat3", "flat4"]
 
 A0S = [4.0, 2.5, 2.0, 1.5]
 # shelf: beside the peak the curve comes down by one part in 1e7 only and stays there (a peak whose prominence
@@ -77,6 +100,13 @@ def make_grid(name, f0):
     if name == "geo13":
         ks = range(-8, 9)
         return [f0 * 1.3 ** k for k in ks], 8
+    if name in END_GRIDS:
+        # geo13 cut 1 / 2 / 4 samples above (tail) or below (head) the peak: the peak is the last-but-one (second)
+        # sample; the last (first) sample is the outermost one within a factor 2 of f0 (reliability iii);
+        # the last (first) sample is the only one a factor >= 2.5 away from f0 on that side (clarity i / ii)
+        k = int(name[4])
+        ks = range(-8, k + 1) if name.startswith("tail") else range(-k, 9)
+        return [f0 * 1.3 ** j for j in ks], (8 if name.startswith("tail") else k)
     if name == "geo13lin":
         # same length, first, last and f0 sample as geo13, but both halves linearly spaced: the samples
         # nearest to a given limit sit at OTHER positions than on geo13
@@ -152,6 +182,39 @@ def mean_curve(freq, p, a0, left, right, second):
             if v2 > out[i]:
                 out[i] = v2
     return out
+
+
+def apply_tie(m, tie, slices):
+    """Copy of the mean curve m in which further samples carry exactly the amplitude of the peak of the range.
+
+    The tie is placed relative to the samples the search range selects (first candidate slice) and to the peak
+    of the untouched curve in there; None when the curve has no unique single-sample peak or is too short."""
+    lo, hi = slices[0]
+    i0 = RS.peak(m[lo:hi])
+    if i0 is None:
+        return None
+    pk = lo + i0
+    a = m[pk]
+    m = list(m)
+    if tie == "first":
+        targets = {lo: a}
+    elif tie == "last":
+        targets = {hi - 1: a}
+    elif tie == "lead":
+        targets = {lo: 1.25 * a, lo + 1: a}
+    elif tie == "trail":
+        targets = {hi - 1: 1.25 * a, hi - 2: a}
+    elif tie == "flat3":
+        targets = {pk - 1: a, pk + 1: a}
+    elif tie == "flat4":
+        targets = {pk - 1: a, pk + 1: a, pk + 2: a}
+    else:
+        raise KeyError(tie)
+    for i, v in targets.items():
+        if not lo <= i < hi or i == pk:
+            return None
+        m[i] = v
+    return m
 
 
 def iv_target(name, freq, t):
@@ -262,6 +325,14 @@ def _search_range(kind, freq, p, second):
         return (f0 / 2.2, _off_sample(freq, p + 1, +1))
     if kind == "none":
         return (None, None)
+    if kind == "beyond_hi":                  # upper limit strictly above the last frequency: an open upper end
+        return (f0 / 2.2, 1.5 * freq[-1])
+    if kind == "beyond_lo":
+        return (0.5 * freq[0], f0 * 2.2)
+    if kind == "beyond_both":
+        return (0.5 * freq[0], 1.5 * freq[-1])
+    if kind == "at_ends":                    # limits exactly on the first and the last frequency
+        return (freq[0], freq[-1])
     if kind == "wide":
         return (f0 / 5.5, f0 * 5.5)
     if kind == "narrow":
@@ -337,6 +408,7 @@ class Root:
         assert self.freq[self.p] == root["f0"]
         self.second = root["second"]
         self.order = root.get("order", "asc")
+        self.tie = root.get("tie", "none")
         self.rng = search_range(root["range"], self.freq, self.p, self.second, self.order)
         self.valid = self.rng != "invalid"
         if self.valid:
@@ -345,14 +417,20 @@ class Root:
         self._interp = {}
 
     def mean(self, a0, left, right):
+        """(mean curve, per candidate slice the admissible peak samples [primary first] or None)."""
         key = (a0, left, right)
         if key not in self._mean:
             m = mean_curve(self.freq, self.p, a0, left, right, self.second)
+            if self.tie != "none":
+                m = apply_tie(m, self.tie, self.slices)
             # the peak of the mean curve within the search range, per candidate slice
             peaks = []
             for lo, hi in self.slices:
-                i0 = RS.peak(m[lo:hi])
-                peaks.append(None if i0 is None else lo + i0)
+                if m is None:
+                    peaks.append(None)
+                    continue
+                c = RS.peak_candidates(m[lo:hi])
+                peaks.append(None if c is None else [lo + i for i in c])
             self._mean[key] = (m, peaks)
         return self._mean[key]
 
@@ -361,10 +439,10 @@ class Root:
         m, peaks = self.mean(a0, left, right)
         if any(pk is None for pk in peaks):
             return None
-        s = std_curve(std_name, self.freq, peaks[0], m)
+        s = std_curve(std_name, self.freq, peaks[0][0], m)
         if s is None:
             return "no_such_std"
-        return m, s, [(lo, hi, pk) for (lo, hi), pk in zip(self.slices, peaks)]
+        return m, s, [(lo, hi, pk) for (lo, hi), pks in zip(self.slices, peaks) for pk in pks]
 
     def clarity_static(self, key, m, s, interp):
         """Acceptable verdicts of clarity i-iv, vi (and the facts used to classify
@@ -399,9 +477,19 @@ def _union_sets(list_of_vectors):
     return [frozenset().union(*[v[c] for v in list_of_vectors]) for c in range(n)]
 
 
+def _input_class(root):
+    tie = root.get("tie", "none")
+    out = ""
+    if tie != "none":
+        out += ":flat-top" if tie.startswith("flat") else ":tied-sample"
+    if root.get("range") in BEYOND:
+        out += ":limit-beyond-band"
+    return out
+
+
 def _judge(ctx, root, fname, ncrit, acceptable, results, detail, exc_class):
     """Compare the three verbosity results of one case with the reference."""
-    tag = fname + (":reversed-range" if root.get("order", "asc") == "desc" else "")
+    tag = fname + (":reversed-range" if root.get("order", "asc") == "desc" else "") + _input_class(root)
     ok = []
     silent_raised = any(isinstance(out, tuple) and out and out[0] == "raised"
                         for v, (out, _text) in zip(VERBOSITY, results) if v < 2)
@@ -448,6 +536,51 @@ def _judge(ctx, root, fname, ncrit, acceptable, results, detail, exc_class):
     return base
 
 
+def _clarity_vec(freq, m, s, fn_std, a, b, pk):
+    v, _ = RS.clarity(freq[a:b], m[a:b], s[a:b], fn_std, pk - a)
+    return v
+
+
+def _count_input_classes(ctx, R, fname, m, interp, vecs, beyond_lo, beyond_hi, verdicts):
+    """Non-vacuity counters of the input classes 'tied sample', 'flat top' and 'limit beyond the band'.
+    vecs[i]: reference verdict sets of interp[i]; verdicts(a, b, pk): the same on the samples [a, b) for the
+    peak sample pk."""
+    lo, hi, pk0 = interp[0]
+    run = sorted(pk for a, b, pk in interp if (a, b) == (lo, hi))
+    a0 = m[pk0]
+    if len(run) > 1:
+        ctx.count(f"cases_flat_top_{len(run)}")
+        vs = [v for (a, b, pk), v in zip(interp, vecs) if (a, b) == (lo, hi)]
+        if any(v != vs[0] for v in vs[1:]):
+            ctx.count("cases_flat_top_verdicts_depend_on_sample")
+        if len({tuple(RS.table_rows(R.freq[pk])) for pk in run}) > 1:
+            ctx.count("cases_flat_top_straddles_band_edge")
+    # a sample of the range outside the top of the peak with exactly the amplitude of the peak
+    before = [i for i in range(lo, run[0]) if m[i] == a0]
+    after = [i for i in range(run[-1] + 1, hi) if m[i] == a0]
+    for name, idx in (("before", before), ("after", after)):
+        if idx:
+            ctx.count(f"cases_tied_sample_{name}_peak")
+            i = idx[0]
+            if lo < i < hi - 1 and verdicts(lo, hi, i) != vecs[0]:
+                # evaluated on the tied interior sample the guideline would give other verdicts
+                ctx.count(f"cases_tied_sample_{name}_peak_would_change_verdicts")
+            elif i in (lo, hi - 1):
+                ctx.count(f"cases_tied_{'first' if i == lo else 'last'}_sample_of_range")
+    # a limit outside the band: would the verdicts change if the end sample of the curve were not selected?
+    n = len(R.freq)
+    for flag, name, a, b in ((beyond_hi, "hi", lo, hi - 1), (beyond_lo, "lo", lo + 1, hi)):
+        if not flag:
+            continue
+        ctx.count(f"cases_limit_beyond_band_{name}_{fname}")
+        if (name == "hi" and hi != n) or (name == "lo" and lo != 0):
+            continue
+        if not all(a < pk < b - 1 for pk in run):
+            ctx.count(f"cases_limit_beyond_band_{name}_peak_next_to_end_sample")
+        elif verdicts(a, b, pk0) != vecs[0]:
+            ctx.count(f"cases_limit_beyond_band_{name}_end_sample_decides_{fname}")
+
+
 def _clarity_cases(space, k, tier):
     """All configurations within k deviations of the default; the thorough tier
     adds the full product left flank x right flank x std curve (default A0, sigma_f)."""
@@ -491,8 +624,12 @@ def run_root(root, ctx, tier):
     f0_root = root["f0"]
     rng = R.rng
     nfull = len(freq)
-    rinfo = dict(grid=root["grid"], range_kind=root["range"], range_order=R.order, second=root["second"])
-    rtag = f"{root['grid']}|{f0_root}|{root['second']}|{root['range']}|{R.order}"
+    rinfo = dict(grid=root["grid"], range_kind=root["range"], range_order=R.order, second=root["second"],
+                 tie=R.tie)
+    rtag = f"{root['grid']}|{f0_root}|{root['second']}|{root['range']}|{R.order}|{R.tie}"
+    lims = [x for x in rng if x is not None]
+    beyond_hi = bool(lims) and max(lims) > freq[-1]
+    beyond_lo = bool(lims) and min(lims) < freq[0]
     reversed_range = R.order == "desc"
     if reversed_range:
         assert rng[0] > rng[1]
@@ -524,8 +661,10 @@ def run_root(root, ctx, tier):
             v[4] = RS.clarity_v(fn_std, freq[pk])
             vecs.append(v)
         acceptable = _union_sets(vecs)
-        if len(interp) > 1:
+        if len(R.slices) > 1:
             ctx.count("knife_edge_trim_cases")
+        _count_input_classes(ctx, R, "clarity", m, interp, vecs_t, beyond_lo, beyond_hi,
+                             lambda a, b, pk, m=m, s=s, fn_std=fn_std: _clarity_vec(freq, m, s, fn_std, a, b, pk))
         if sets_f and _union_sets(vecs_t) != acceptable:
             ctx.count("trimmed_vs_full_curve_differ")
         no_sigma_peak = any(i["no_sigma_peak"] for i in infos)
@@ -622,6 +761,10 @@ def run_root(root, ctx, tier):
         acceptable = _union_sets(vecs)
         if f3 and _union_sets(vecs_t) != acceptable:
             ctx.count("trimmed_vs_full_curve_differ")
+        _count_input_classes(ctx, R, "reliability", m, interp, vecs_t, beyond_lo, beyond_hi,
+                             lambda a, b, pk, s=s, lw=lw, nw=nw: [
+                                 RS.reliability_i(lw, freq[pk]), RS.reliability_ii(lw, nw, freq[pk]),
+                                 RS.reliability_iii(freq[a:b], s[a:b], pk - a)])
         results = []
         for v in VERBOSITY:
             args = (lw, nw, np.array(freq), np.array(m), np.array(s))
@@ -678,6 +821,49 @@ def roots(tier, seed):
         for rng in ("wide", "narrow", "lo_only", "hi_only"):
             for grids in (["geo13", "geo13lin"], ["geo13lin", "geo13"]):
                 out.append(dict(grid=grids[0], grids=grids, f0=f0, second="none", range=rng))
+    out.extend(end_roots(tier))
+    out.extend(tie_roots(tier))
+    return out
+
+
+def end_roots(tier):
+    """Curves that end 1, 2 or 4 samples beside the peak x ranges with limits outside the band / on its end samples."""
+    out = []
+    quick = tier == "quick"
+    for grid in END_GRIDS:
+        inward = "left2" if grid.startswith("tail") else "right2"     # a second peak on the long side of the curve
+        for f0 in ([1.0] if quick else [1.0, 0.5]):
+            for second in ["none", inward]:
+                for rng in (END_RANGES[:4] if quick else END_RANGES):
+                    if quick and second != "none" and rng == "at_ends":
+                        continue
+                    for order in ORDERS:
+                        if order == "desc" and (rng not in TWO_SIDED or
+                                                (quick and (rng != "beyond_both" or second != "none"))):
+                            continue
+                        out.append(dict(grid=grid, f0=f0, second=second, range=rng, order=order))
+    return out
+
+
+def tie_roots(tier):
+    """Curves with samples that carry exactly the amplitude of the peak (TIES)."""
+    out = []
+    if tier == "quick":
+        for grid, f0s, rngs in (("geo13", (1.0, 2.0), ("none", "narrow")), ("lin16", (1.0,), ("none",))):
+            for f0 in f0s:
+                for tie in TIES:
+                    for rng in rngs:
+                        out.append(dict(grid=grid, f0=f0, second="none", range=rng, order="asc", tie=tie))
+        for f0 in (0.2, 0.5, 1.0, 2.0):         # 3 % spacing: a flat top straddles the band edge
+            for tie in (("flat3", "flat4") if f0 in (0.5, 2.0) else ("flat3",)):
+                out.append(dict(grid="geo103", f0=f0, second="none", range="none", order="asc", tie=tie))
+        return out
+    for grid in ("geo13", "lin16", "geo103"):
+        for f0 in ((1.0, 0.2, 0.5, 2.0) if grid == "geo103" else (1.0, 2.0)):
+            for tie in TIES:
+                for second, rng in (("none", "none"), ("none", "narrow"), ("none", "adj_lo"),
+                                    ("none", "beyond_both"), ("left2", "lo_only"), ("right2", "hi_only")):
+                    out.append(dict(grid=grid, f0=f0, second=second, range=rng, order="asc", tie=tie))
     return out
 
 
@@ -694,7 +880,21 @@ def finalize(ctx, tier):
                  "monotone_pairs", "knife_edge_trim_cases", "cases_reversed_range",
                  "cases_peak_next_to_range_limit", "cases_peak_next_to_range_limit_reversed",
                  "cases_iv_sigma_peak_just_inside_lo_edge", "cases_iv_sigma_peak_just_outside_lo_edge",
-                 "cases_iv_sigma_peak_just_inside_hi_edge", "cases_iv_sigma_peak_just_outside_hi_edge"):
+                 "cases_iv_sigma_peak_just_inside_hi_edge", "cases_iv_sigma_peak_just_outside_hi_edge",
+                 "cases_flat_top_3", "cases_flat_top_4", "cases_flat_top_straddles_band_edge",
+                 "cases_flat_top_verdicts_depend_on_sample",
+                 "cases_tied_sample_before_peak", "cases_tied_sample_after_peak",
+                 "cases_tied_first_sample_of_range", "cases_tied_last_sample_of_range",
+                 "cases_tied_sample_before_peak_would_change_verdicts",
+                 "cases_tied_sample_after_peak_would_change_verdicts",
+                 "cases_limit_beyond_band_hi_clarity", "cases_limit_beyond_band_lo_clarity",
+                 "cases_limit_beyond_band_hi_reliability", "cases_limit_beyond_band_lo_reliability",
+                 "cases_limit_beyond_band_hi_peak_next_to_end_sample",
+                 "cases_limit_beyond_band_lo_peak_next_to_end_sample",
+                 "cases_limit_beyond_band_hi_end_sample_decides_clarity",
+                 "cases_limit_beyond_band_lo_end_sample_decides_clarity",
+                 "cases_limit_beyond_band_hi_end_sample_decides_reliability",
+                 "cases_limit_beyond_band_lo_end_sample_decides_reliability"):
         if not c.get(name):
             missing.append(name)
     ctx.notes["vacuity_missing"] = missing
@@ -713,6 +913,16 @@ def describe(tier):
              "right next to the first / last sample of the range), limits given as (low, high) or - ranges with two "
              "numbers - as (high, low)) - "
              + ("all roots within 2 deviations of the default root" if tier == "quick" else "full product")
+             + "; plus END roots: geo13 cut 1 / 2 / 4 samples above (tail) or below (head) the peak x f0 x second peak "
+             "none / on the long side x ranges with a limit at 0.5 x the first / 1.5 x the last frequency (one side, the "
+             "other side, both), limits exactly on the end samples"
+             + (" (both limit orders for beyond_both)" if tier == "quick" else
+                ", none, low only, high only (both limit orders where there are two numbers)")
+             + "; plus TIE roots: grids geo13, lin16, geo103 x f0 x 6 kinds of samples carrying EXACTLY the amplitude of "
+             "the peak (first / last sample of the range; the sample next to it on a stretch that comes down from / goes "
+             "up to 1.25 A0 there; flat top of 3 or 4 equal samples, on geo103 with f0 on a band edge so that the flat "
+             "top straddles it) x ranges "
+             + ("none, narrow" if tier == "quick" else "none, narrow, adj_lo, beyond_both, second peak + one-sided")
              + "; below each root clarity cases = all configurations of (A0, left flank, right flank, std curve, "
              f"sigma_f) within {ck} deviations of the default"
              + ("" if tier == "quick" else " plus the full product left flank x right flank x std curve")
@@ -726,7 +936,9 @@ def describe(tier):
              "1.05 f0 edge on its inner or on its outer side (8 kinds; skipped where the grid has no such sample); "
              "a case is non-trivial/distinct by "
              "(function, grid, f0, second peak, range kind, order of the limits, reference verdict sets)",
-        bounds=dict(grids=GRID_NAMES, f0=F0S, second=SECONDS, ranges=RANGES, limit_orders=ORDERS,
+        bounds=dict(end_grids=END_GRIDS, end_ranges=END_RANGES, ties=TIES,
+                    end_roots=len(end_roots(tier)), tie_roots=len(tie_roots(tier)),
+                    grids=GRID_NAMES, f0=F0S, second=SECONDS, ranges=RANGES, limit_orders=ORDERS,
                     ranges_that_can_be_reversed=list(TWO_SIDED), edge5_grid_over_f0=EDGE5, a0=A0S, flanks=SIDES,
                     std_curves=STDS, sigma_f_over_f0=SIGMA_F, window_lengths=LWS, window_counts=NWS,
                     clarity_deviations=ck, reliability_deviations=rk if rk is not None else "full product",
@@ -735,6 +947,13 @@ def describe(tier):
         assumptions=[
             "f0 is the highest interior local maximum of the mean curve cut to the samples nearest to the "
             "search-range limits (inclusive); curves whose highest maximum is not unique are not enumerated",
+            "a sample that merely carries the amplitude of the peak (an end sample of the range, a sample on a monotone "
+            "stretch) is not a peak: the verdicts must be those of the local maximum",
+            "which sample of a flat-topped highest maximum (a run of exactly equal samples) is 'the peak' is not pinned: "
+            "a verdict is accepted if it is the guideline's for any sample of the run (so taking the left edge, the "
+            "middle or the right edge of the run are all accepted; a sample outside the run is not)",
+            "a limit outside the sampled band selects what a missing limit selects (nearest sample = the end sample, "
+            "inclusive)",
             "whether the remaining criteria look at the cut curve or at the whole curve is not pinned by the "
             "statement: a verdict is accepted if it agrees with either (counter trimmed_vs_full_curve_differ)",
             "table rows are half-open bands [lo, hi); reliability iii uses 2 for f0 > 0.5 Hz and 3 otherwise",
